@@ -48,6 +48,8 @@ def run(ctx, chk):
     from .c13 import locale_language_pairing_rule
     locale_language_pairing_rule(ctx, chk, "C03.R9")      # a mis-paired Locale is cached process-wide under its name
     r10(ctx, chk)
+    from .c02 import settings_forwarding_rule
+    settings_forwarding_rule(ctx, chk, "C03.R11")     # a missing settings argument shows only on the call that first fills a per-locale cache
 
 
 def r8(ctx, chk):
